@@ -746,7 +746,8 @@ func psRandomPlan(rng *rand.Rand) psPlan {
 func psSweepCases(h *hctx) []timedCase {
 	delay := time.Duration(h.pi("delay_us", 1500)) * time.Microsecond
 	us := func(n int) time.Duration { return time.Duration(n) * time.Microsecond }
-	jit := func(n int) time.Duration { return time.Duration(h.rng.Intn(n+1)) * time.Microsecond }
+	rng := rand.New(rand.NewSource(h.seed + int64(h.pi("salt", 0))*1000003))
+	jit := func(n int) time.Duration { return time.Duration(rng.Intn(n+1)) * time.Microsecond }
 	mk := func(name string, plan func() psPlan) timedCase {
 		return timedCase{name: name, delay: delay, hits: h.pi("hits", 3), run: func(h *hctx, id string, inject time.Duration) {
 			p := plan()
@@ -863,9 +864,10 @@ func psSanity(h *hctx) {
 func init() {
 	register("C06K2", func(h *hctx) {
 		hangs := 0
+		rng := rand.New(rand.NewSource(h.seed + int64(h.pi("salt", 0))*1000003)) // C06 and C07 explore different programs
 		for i := 0; i < h.n && hangs < 3; i++ {
-			plan := psRandomPlan(h.rng)
-			if !psCase(h, fmt.Sprintf("k2-%d-%d", h.seed, i), plan) {
+			plan := psRandomPlan(rng)
+			if !psCase(h, fmt.Sprintf("k2-%d.%d-%d", h.seed, h.pi("salt", 0), i), plan) {
 				hangs++
 			}
 		}
